@@ -25,6 +25,10 @@ func register(id, level string, f func(r *engine.Run)) {
 func main() {
 	log.SetOutput(io.Discard)
 	logging.Disable()
+	if len(os.Args) >= 3 && os.Args[1] == "--worker" && os.Args[2] == "c08" {
+		c08Worker()
+		return
+	}
 	if len(os.Args) < 3 {
 		fmt.Fprintln(os.Stderr, "usage: check <id> quick|thorough")
 		os.Exit(2)
